@@ -660,12 +660,12 @@ fn document_space(acc: &mut Acc) {
 
 pub fn run(ctx: &Ctx) -> (Acc, Report) {
     let mut acc = ctx.acc();
-    let (lp, li) = ctx.tier.pick((6, 7), (7, 8));
+    let (lp, li) = ctx.tier.pick((7, 8), (8, 9));
     let pats = strings_upto(&['a', 'b', '*', '?'], lp, 1);
     let inputs = strings_upto(&['a', 'b'], li, 0);
     matcher_space(&mut acc, "ascii", &pats, &inputs);
 
-    let (ulp, uli) = ctx.tier.pick((4, 4), (5, 5));
+    let (ulp, uli) = ctx.tier.pick((5, 5), (6, 6));
     let upats = strings_upto(&['a', 'é', '*', '?'], ulp, 1);
     let uinputs = strings_upto(&['a', 'é'], uli, 0);
     matcher_space(&mut acc, "unicode", &upats, &uinputs);
